@@ -132,8 +132,22 @@ func init() {
 				wSet(wGet(edited, "metadata"), "ver", wS("!!int", "1"))
 				wSet(wGet(orig, "metadata"), "ver", []interface{}{"s", "!!str", "1", int(yaml.DoubleQuotedStyle)})
 			}
+			// in half of the cases arguments that are the same document are the same OBJECT (merge3(d,d,d) written as
+			// Merge(d, d, d)): the laws do not care how the caller holds its documents
+			shared := r.Intn(2) == 0
 			run := func(d, og, u interface{}) (interface{}, error) {
-				res, err := merge3.Merge(optRNode(d), optRNode(og), optRNode(u))
+				dn, ogn, un := optRNode(d), optRNode(og), optRNode(u)
+				if shared {
+					if reflect.DeepEqual(og, d) {
+						ogn = dn
+					}
+					if reflect.DeepEqual(u, og) {
+						un = ogn
+					} else if reflect.DeepEqual(u, d) {
+						un = dn
+					}
+				}
+				res, err := merge3.Merge(dn, ogn, un)
 				if err != nil {
 					return nil, err
 				}
